@@ -23,6 +23,7 @@ def tyName : Ty → String
   | .scalarData => "ScalarData" | .numeric => "Numeric" | .data => "Data" | .richData => "RichData"
   | .str | .strSz _ | .strVal _ => "String"
   | .bin => "Binary" | .int _ => "Integer" | .float _ _ => "Float" | .bool _ => "Boolean" | .tspan _ => "Timespan"
+  | .tstamp _ => "Timestamp"
   | .enum _ _ => "Enum" | .pattern _ => "Pattern" | .regexp _ => "Regexp" | .coll _ => "Collection"
   | .array _ _ => "Array" | .hash _ _ _ => "Hash" | .tuple _ _ => "Tuple" | .struct _ => "Struct" | .variant _ => "Variant"
   | .optional _ => "Optional" | .notUndef _ => "NotUndef" | .typ _ => "Type" | .sensitive _ => "Sensitive"
